@@ -980,6 +980,12 @@ class Gen:
             tk.add("(")
             c = self.emit_expr(s[1], tk, 1)
             tk.add(")")
+            prs = []
+            if self.rng.random() < 0.06:
+                # pragma lines between the switch head and its body: each appears once, at its place (wrapped with the body in a
+                # Compound, as in front of any sub-statement) - and the body is the regrouped body all the same
+                for _ in range(self.rng.randint(1, 2)):
+                    prs += self.emit_stmt(("pragma", self.rng.choice(["omp sw", "unroll", ""])), tk)
             bi = tk.add("{")
             items = []
             for p in s[2]:
@@ -1004,6 +1010,8 @@ class Gen:
                     st = L(stmts) if j == len(lab_nodes) - 1 else L([])
                     items.append(N("Case", [e, st], li) if cls == "Case" else N("Default", [st], li))
             tk.add("}")
+            if prs:
+                return one(N("Switch", [c, N("Compound", [L(prs + [N("Compound", [L(items)], bi)])])], i))
             return one(N("Switch", [c, N("Compound", [L(items)], bi)], i))
         if t == "switch1":
             i = tk.add("switch")
